@@ -813,7 +813,7 @@ class Executor:
         k, ls = self.loop_spec(s)
         line = s.lineno - self.fn.lineno
         self.check_invs(st, ls, "inv-entry", k, line=line)
-        w = self.write_set(s.body, st)
+        w = self.write_set(s.body, st) | set(ls.ghost)
         h = st.copy()
         self.havoc(h, w, f"L{k}")
         self.assume_invs(h, ls)
